@@ -14,6 +14,8 @@ CHECKS = {
          'runtime monitor: byte-exact ordered-subsequence oracle with anchors for rendered sections', '5/C04'),
  'C05': ('exploration', 'expected old/new numbers computed from the generated diff model and compared with the number fields parsed from tagged gutters in unified (-n) and side-by-side view, plus hunk-header number and path',
          'runtime monitor: reference counter model vs gutter fields decoded by the terminal model', '5/C05'),
+ 'C06': ('exploration', 'soundness of emphasis (delete emphasised cells from both lines -> same text), no emphasis on unpaired/identical lines, single-run extent, pairing rules for distance 0 and 1; exhaustive over all pairs of short token sequences over a small alphabet x 16 regex/distance combinations, random realistic sub-hunks in unified and side-by-side view',
+         'runtime monitor: per-cell style-class oracle over exhaustively enumerated and random sub-hunks', '5/C06'),
  'C07': ('exploration', 'per row: width, panel boundary column, line kinds per panel; per line and side: fragments across rows re-joined and compared with the model line, wrap limits and truncation rules',
          'runtime monitor: geometry invariants + lossless-reassembly oracle over tagged side-by-side rows', '5/C07'),
  'C08': ('exploration', 'relational monitor over pairs of runs (real git --color=never/always and a synthetic colouriser covering git\'s layouts): byte equality; per-cell rendition equality for specially coloured and raw-styled lines',
@@ -22,6 +24,8 @@ CHECKS = {
          'runtime monitor: online terminal-state checker (SGR/OSC 8 balance, no split sequences)', '5/C09'),
  'C10': ('exploration', 'stdout(A1..An) compared byte-for-byte with the concatenation of stdout(Ai) for sequences of complete file sections, all ordered pairs of (kind, ending) shapes in the thorough tier; repeated fresh-process runs for determinism',
          'runtime monitor: relational (concatenation / re-run) oracle over section histories', '5/C10'),
+ 'C14': ('exploration', 'rendered rows walked strictly against the generated section model: exactly one file header row per section with exactly the expected text (paths, label, arrow, mode/binary note) and one header row per hunk carrying the fragment',
+         'runtime monitor: strict row-sequence oracle against the input reference model', '5/C14'),
  'C15': ('exploration', 'pairs of runs differing only in syntax theme (or in a file name of the same kind) compared cell by cell: characters, widths, backgrounds, attributes, links identical; foreground may differ only inside syntax-marked style slots',
          'runtime monitor: relational cell-by-cell oracle over theme pairs and rename pairs', '5/C15'),
  'C19': ('exploration', 'pairs of runs with hyperlinks off/on: OSC-8-stripped bytes identical; every link closed on its line; file and commit link targets recomputed independently from the input model and the displayed numbers',
